@@ -1,6 +1,6 @@
 (* Props/C07.v -- property C07: INVITE client: non-2xx finals are ACKed by the transaction, 2xx left to the user *)
 From Coq Require Import List NArith.
-From EZK Require Import Lib.Bytes Gen.Tables Model.Tsx Model.C07 Proofs.C05 Proofs.C07.
+From EZK Require Import Model.C12o Proofs.C12o Lib.Bytes Gen.Tables Model.Tsx Model.C07 Proofs.C05 Proofs.C07.
 Import ListNotations.
 Open Scope N_scope.
 
@@ -61,3 +61,15 @@ Example C07_example :
   option_map rq_headers (create_ack inv [(HTo, B"t;tag=z"); (HVia, B"v1")]) =
   Some [(HVia, B"v1"); (HFrom, B"f"); (HTo, B"t;tag=z"); (HCallId, B"c"); (HRoute, B"r1"); (HRoute, B"r2")].
 Proof. vm_compute. reflexivity. Qed.
+
+(* "hands every 2xx (forks and retransmissions) to the caller ... each retransmission received ... sends one ACK" - any number of them:
+   the queue in front of the transaction is unbounded, so a burst of answers that is in before the caller looks again loses nothing; a
+   bounded queue filled with try_send drops what exceeds it (as orphaned responses) *)
+Theorem C07_queue_guard : tsx_queue_unbounded = true.
+Proof. reflexivity. Qed.
+
+Theorem C07_no_answer_of_a_burst_refused : forall n, tsx_queue_unbounded = true -> refused_of tsx_queue_capacity n = 0%nat.
+Proof. exact unbounded_refuses_nothing. Qed.
+
+Theorem C07_bounded_inbox_refuted : forall c n, (c < n)%nat -> (0 < refused_of (Some c) n)%nat.
+Proof. exact bounded_refuses. Qed.
